@@ -1519,7 +1519,7 @@ class Wrapc(util.WrapperMixin):
                 fmt,
                 ntypemap.cxx_type,
                 [
-                    "{cxx_type} *cxx_ptr =\t reinterpret_cast<{cxx_type} *>(ptr);",
+                    "{cxx_type} *cxx_ptr =\t {cast_reinterpret}{cxx_type} *{cast1}ptr{cast2};",
                     "free(cxx_ptr);",
                 ],
                 ntypemap,
